@@ -216,6 +216,13 @@ macro_rules! dim_checks {
                 ensure_eq!(z + cu, cu, "zero-identity-left", "zero() + u");
                 ensure!(z.is_zero(), "is_zero-of-zero", "zero().is_zero() is false");
                 ensure_eq!(cu.is_zero(), u.iter().all(|x| *x == S::zero()), "is_zero", "is_zero()");
+                // the in-place spelling of zero() (a provided method of the Zero trait, which an impl may override)
+                for src in [cu, cv, z] {
+                    let mut t = src;
+                    num_traits::Zero::set_zero(&mut t);
+                    ensure_eq!(arr(t), vec![S::zero(); $n], "set_zero", "set_zero() leaves components behind");
+                    ensure!(t.is_zero() && t == z && t + cw == cw, "set_zero", "after set_zero() the vector is not the additive identity");
+                }
                 // zero except for one component, at every position (and with a magnitude whose square leaves the type)
                 let k = d.below($n);
                 for val in [Some(S::g_nz(d)), S::big()].iter().flatten() {
